@@ -95,6 +95,7 @@ class Computed:
     total: int = field(init=False)
     fixed: str = field(init=False, default="x")
     items: list = field(default_factory=list)
+    secret: Optional[str] = field(default=None, repr=False)      # left out of repr(), still a constructor argument
 
     def __post_init__(self):
         self.total = self.a * 2 + len(self.items)
@@ -201,7 +202,7 @@ def run(ctx):
     extra = [m.Frozen(items=(1, 2), name="x"), m.Frozen(items=(), opts={"k": [1, 2], "q": QName("a")}), m.Frozen(items=((1,), [2])),
              m.Holder(a={"k": m.Color.RED}, b=[m.Outer.Inner(x=None), m.Outer.Inner(x=3)]), m.Holder(a=-0.0, b=float("nan")),
              m.Holder(a=Decimal("NaN").copy_abs() if False else Decimal("1E+2"), b=b"\x00\xff"), m.Holder(a="", b=[]),
-             m.Computed(a=3), m.Computed(a=1, items=[m.Computed(a=7)]), m.Holder(a=m.Computed(), b=[m.Computed(a=0, items=[1, 2])]),
+             m.Computed(a=3), m.Computed(a=2, secret="s"), m.Computed(a=1, items=[m.Computed(a=7)]), m.Holder(a=m.Computed(), b=[m.Computed(a=0, items=[1, 2])]),
              m.WithClassVar(a=5), m.Holder(a=[m.WithClassVar(a="x", b=None)], b=m.WithClassVar())]
     m.WithClassVar.version = "2.0"      # (changed after the class was made: still no field)
     for k, obj in enumerate(extra):
